@@ -284,6 +284,30 @@ def run(ctx):
             ctx.fail('sender-count', 'Drop', ctx.loc(rec), '; '.join(sorted(set(problems))), key='sender-count|drop')
         else:
             ctx.ok('sender-count', 'Drop decrements once; closes recv_wakers only after the decrement', sample={'closing_paths': closing, 'other_paths': nonclosing})
+    # (6) decisions taken under the channel lock must not depend on n_senders: senders decrement it BEFORE taking the lock,
+    # so under the lock it is not synchronised with the queue state (check-then-act race)
+    FROZEN_NS = {R_DROP: 'receiver is going away: a stale n_senders only leaves empty_channels one too high (gate stays open), never too low'}
+    for d, i in sorted(set(C16.module_fns(f, DC, FILE))):
+        rec = f.fn(d, i)
+        if rec.get('coroutine'):
+            continue
+        try:
+            outs = explore(f, rec, DC, depth=0)
+        except Undecidable:
+            continue
+        hit = None
+        for o in outs:
+            steps, edges, live_end = guard_timeline(o)
+            for e, live in steps:
+                if e[0] == 'branch' and e[1] and 'n_senders' in e[1] and any(short_class(c) == 'Channel.state' for t, c in live):
+                    hit = e[1]
+        if hit:
+            if d in FROZEN_NS:
+                ctx.ok('count-under-lock', d, nontrivial=False, sample={'fn': d, 'frozen': FROZEN_NS[d]})
+            else:
+                ctx.fail('count-under-lock', d, ctx.loc(rec), 'a decision taken while Channel.state is locked depends on n_senders (%s), which senders change before they take that lock: '
+                         'the empty_channels gate can be left one too low and block every sender' % hit[:80], key='count-under-lock|' + d)
+    ctx.ok('count-under-lock', 'module scanned', nontrivial=False)
     # census
     allowed = {'n_senders': {S_CLONE, S_DROP}, 'empty_channels': {RECV_POLL, DC + 'Gate::decr_empty_channels'}}
     nw = 0
